@@ -33,6 +33,10 @@ type c12Scenario struct {
 	Nth     int    `json:"nth,omitempty"`
 	CmdKind string `json:"cmd,omitempty"`
 	Sys     string `json:"syscall,omitempty"`
+	// TmpBlocked (sim): while the last command runs, the temporary file of the snapshot cannot be
+	// created (a non-empty directory sits at its path). Saving may then fail - what is on disk must
+	// still be a complete snapshot at every step
+	TmpBlocked bool `json:"tmp_path_unusable,omitempty"`
 }
 
 var c12RealCmds = []string{"deploy-new", "redeploy", "pause", "stop", "resume", "remove", "rollout-deploy", "rollout-set"}
@@ -45,6 +49,7 @@ func c12Gen(rng *rand.Rand, idx int, nsim, nkill, nstrace int) c12Scenario {
 		if idx%4 == 3 {
 			sc.Part = "sim-overlap"
 		}
+		sc.TmpBlocked = idx%4 == 1
 		g := NewCmdGen(rng)
 		n := 2 + rng.IntN(9)
 		for i := 0; i < n; i++ {
@@ -161,6 +166,10 @@ func c12Sim(t *testing.T, run *Run, sc c12Scenario) {
 	points := 0
 	for i, c := range sc.History {
 		pre := configView(w, prim, fmt.Sprintf("pre%d", i))
+		blocked := sc.TmpBlocked && i == len(sc.History)-1 && i > 0
+		if blocked {
+			os.MkdirAll(filepath.Join(w.StatePath+".tmp", "in-the-way"), 0o755)
+		}
 		mu.Lock()
 		caps, capturing = nil, true
 		mu.Unlock()
@@ -169,6 +178,9 @@ func c12Sim(t *testing.T, run *Run, sc c12Scenario) {
 		capturing = false
 		mine := caps
 		mu.Unlock()
+		if blocked {
+			os.RemoveAll(w.StatePath + ".tmp")
+		}
 		if rec.Panic != "" {
 			fail("panic:"+c.Kind, "command panicked: %s", rec.Panic)
 			return
@@ -188,7 +200,14 @@ func c12Sim(t *testing.T, run *Run, sc c12Scenario) {
 				fail("state-file-unrestorable", "after command %d (%s) the state file cannot be restored: %s", i, c.Kind, rerr)
 				return
 			}
-			if d := DiffObs(post, v); len(d) > 0 {
+			if d := DiffObs(post, v); len(d) > 0 && blocked {
+				// the snapshot could not be written: the file is the previous, complete one
+				run.Count("tmp_blocked_snapshot_not_saved", 1)
+				if pd := DiffObs(pre, v); len(pd) > 0 {
+					fail("state-file-neither-pre-nor-post:tmp-blocked", "command %d (%s) with the temporary snapshot path unusable: the state file restores to neither the configuration before nor after it (%s)", i, c.Kind, pd[0])
+					return
+				}
+			} else if len(d) > 0 {
 				fail("state-file-not-current:"+c.Kind, "after command %d (%s %s) returned, a proxy restored from the state file differs from the live one in %d observables, first: %s", i, c.Kind, c.Svc, len(d), d[0])
 				return
 			}
